@@ -272,6 +272,8 @@ class MirrorHook:
             bad.append('call %s raised %s while extra listeners were registered' % (' '.join(op[:2]), out))
         for ev in w.events:
             self.shadow.feed(ev, w)
+        # "announced to registered listeners BEFORE it takes effect": what our listener saw when it was told
+        bad += sorted(set(getattr(w, 'early', [])))
         return bad + self.shadow.compare(w)
 
 
